@@ -14,6 +14,7 @@ PROP = "C20"
 from curies.w3c import is_w3c_curie, is_w3c_prefix  # noqa: E402
 
 SYMBOLS = ["g", "G", "1", "_", ".", "-", ":", "/", "#", " ", "\t", "\n", "\r", "[", "]", "é", "\u2003"]   # the last: non-ASCII whitespace
+BOUNDARY = ["0", "9", "a", "Z"]   # ends of the character ranges of the grammar (quick: in addition; thorough: up to length 6)
 WS = set(" \t\n\r\x0b\x0c")
 LETTERS = set("abcdefghijklmnopqrstuvwxyzABCDEFGHIJKLMNOPQRSTUVWXYZ")
 DIGITS = set("0123456789")
@@ -21,6 +22,11 @@ DIGITS = set("0123456789")
 
 def maxlen(tier):
     return 5 if tier == "quick" else 7
+
+
+def symbols(tier, L):
+    """quick: 21 symbols up to length 5; thorough: 17 symbols up to length 7 and 21 symbols up to length 6."""
+    return SYMBOLS + BOUNDARY if L <= 6 else SYMBOLS
 
 
 def ref_prefix(s):
@@ -93,9 +99,17 @@ def check_string(s):
 def units(tier, seed):
     L = maxlen(tier)
     us = [{"head": "", "only_short": True, "L": L}]
-    for a in SYMBOLS:
-        for b in SYMBOLS:
+    for a in symbols(tier, L):
+        for b in symbols(tier, L):
             us.append({"head": a + b, "L": L})
+    if tier == "thorough":
+        full = SYMBOLS + BOUNDARY
+        for a in full:
+            for b in full:
+                if a in BOUNDARY or b in BOUNDARY:
+                    us.append({"head": a + b, "L": 6, "full": True})
+                else:
+                    us.append({"head": a + b, "L": 6, "full": True, "need_boundary": True})
     # per seed, the class representatives are rotated (same coverage of classes, different concrete characters)
     return us
 
@@ -110,11 +124,15 @@ def run_unit(unit, ctx):
     rot = ROT.get(int(os.environ.get("VERIF_SEED", "0") or 0) % 5, {})
     tr = str.maketrans(rot) if rot else None
     n = acc_p = acc_c = 0
+    syms = SYMBOLS + BOUNDARY if (unit.get("full") or L <= 6) else SYMBOLS
     if unit.get("only_short"):
-        cands = [""] + SYMBOLS
+        cands = [""] + SYMBOLS + BOUNDARY
     else:
         head = unit["head"]
-        cands = (head + "".join(t) for k in range(0, L - 1) for t in it.product(SYMBOLS, repeat=k))
+        cands = (head + "".join(t) for k in range(0, L - 1) for t in it.product(syms, repeat=k))
+        if unit.get("need_boundary"):   # strings without a boundary symbol were already covered by the length-7 sweep
+            bset = set(BOUNDARY)
+            cands = (c for c in cands if bset.intersection(c))
     for s in cands:
         if tr:
             s = s.translate(tr)
@@ -155,10 +173,10 @@ def describe(tier):
     L = maxlen(tier)
     return {
         "level": "model_checking",
-        "rule": f"all strings of length <= {L} over one representative per character class {SYMBOLS!r} (the representative of letter/digit/non-ASCII "
+        "rule": f"all strings of length <= {L} over one representative per character class {SYMBOLS!r} plus (up to length {min(L, 6)}) the range ends {BOUNDARY!r} (the representative of letter/digit/non-ASCII "
         "classes rotates with VERIF_SEED), i.e. the complete tree of input strings (a node per string, an edge per appended symbol); both "
         "validators compared with a character-loop recogniser; states = strings enumerated; distinct_nontrivial = strings accepted as CURIE",
-        "bounds": {"length": L, "symbols": len(SYMBOLS)},
+        "bounds": {"length": L, "symbols": len(SYMBOLS), "boundary_symbols": len(BOUNDARY)},
         "exhaustive": True,
         "assumptions": ["strings longer than the bound and characters outside the class representatives are not covered (the regular expressions are "
                         "per-character classes plus anchoring, so a counterexample, if any, has a short witness); no random longer strings are used - sampling is not a deciding step"],
